@@ -71,6 +71,7 @@ pub mod verif {
     pub use crate::braille::verif as braille;
     pub use crate::interface::verif as interface;
     pub use crate::infer_intent::verif as infer_intent;
+    pub use crate::speech::verif as speech;
 }
 
 pub mod shim_filesystem; // really just for override_file_for_debugging_rules, but the config seems to throw it off
